@@ -78,6 +78,13 @@ def isSp3 (a b c : Nat) : Bool :=
   (a = 0xE2 && b = 0x81 && c = 0x9F) ||
   (a = 0xE3 && b = 0x80 && c = 0x80)
 
+/-- `w` is the UTF-8 encoding of exactly one white-space rune (`unicode.IsSpace`) -/
+def isWsRune : Bytes → Bool
+  | [a] => isAsciiSpace a
+  | [a, b] => isSp2 a b
+  | [a, b, c] => isSp3 a b c
+  | _ => false
+
 /-- length (1–3) of a Unicode white-space rune encoded at the head of `s`, 0 if there is none.
     `unicode.IsSpace`: `\t \n \v \f \r ' '`, U+0085, U+00A0, U+1680, U+2000–U+200A, U+2028, U+2029,
     U+202F, U+205F, U+3000.  (This is what `utf8.DecodeRuneInString` + `unicode.IsSpace` see at the
